@@ -37,6 +37,10 @@ Section G.
   Notation const_qual := (const_qual tk cl).
   Notation block := (block tk cl txt num tyname).
   Notation blocks := (blocks tk cl txt num tyname).
+  Notation semisep1 := (semisep1 tk cl).
+  Notation block_rest1 := (block_rest1 tk cl).
+  Notation fblock := (fblock tk cl txt num tyname).
+  Notation fblocks := (fblocks tk cl txt num tyname).
 
   (* ---- spelled constants ---- *)
   Inductive sconst :=
@@ -655,6 +659,91 @@ Section G.
         by (repeat (rewrite <- app_assoc; cbn [app]); reflexivity).
       cbn [DeclParser.blocks]. rewrite (skip_app_triv tk cl w _ Hw), (flat_bk_skip b _ Hb).
       rewrite (block_at b (flat_wbs l ++ rest) f Hb) by lia.
+      rewrite (IH Hl' (acc ++ erase_bk b) rest f Hrest) by lia. rewrite <- app_assoc. reflexivity.
+  Qed.
+
+  (* ---- the declaration blocks of a FUNCTION: inputs, outputs and in-outs as above; VAR [CONSTANT] with at least one
+          declaration ---- *)
+  Definition wf_fbk (b : sblock) : Prop :=
+    wf_bk b /\
+    match class_of (cl (bk_kw b)) with
+    | Some DcVar => (qual_of (bk_q b) = Some DqNone \/ qual_of (bk_q b) = Some DqConst) /\
+                    match bk_ds b with DsSome _ _ _ _ => True | DsNone _ _ => False end
+    | Some DcExternal => False
+    | _ => True
+    end.
+  Definition wf_fwb (x : swb) : Prop := match x with WB w b => all_triv w /\ wf_fbk b end.
+
+  Lemma wf_fwb_wb x : wf_fwb x -> wf_wb x.
+  Proof. destruct x as [w b]. intros (Hw & Hb & _). split; assumption. Qed.
+
+  Lemma block_rest1_at q w d ms w' semi wend e rest f :
+    all_triv w -> wf_ds DcVar (DsSome d ms w' semi) -> all_triv wend -> cl e = CDk DkEndVar -> size_ds (DsSome d ms w' semi) <= f ->
+    block_rest1 (decl_parser DcVar) q f (w ++ flat_ds (DsSome d ms w' semi) ++ wend ++ e :: rest) =
+    DOk (map (set_qual q) (erase_ds DcVar (DsSome d ms w' semi)), rest).
+  Proof.
+    intros Hw Hl Hwend He Hf.
+    pose proof (block_rest_at DcVar q w (DsSome d ms w' semi) wend e rest f Hw Hl Hwend He Hf) as B.
+    unfold DeclParser.block_rest1, DeclParser.semisep1. unfold DeclParser.block_rest in B.
+    destruct Hl as (Hd & Hms & Hw' & Hsemi). cbn [size_ds] in Hf.
+    assert (E : exists x, decl_parser DcVar f (skip (w ++ flat_ds (DsSome d ms w' semi) ++ wend ++ e :: rest)) = DOk x).
+    { rewrite (skip_app_triv tk cl w _ Hw). cbn [flat_ds].
+      replace ((flat_d d ++ flat_dms ms ++ w' ++ [semi]) ++ wend ++ e :: rest) with (flat_d d ++ flat_dms ms ++ w' ++ semi :: wend ++ e :: rest)
+        by (repeat (rewrite <- app_assoc; cbn [app]); reflexivity).
+      destruct (flat_d_head d (flat_dms ms ++ w' ++ semi :: wend ++ e :: rest) DcVar Hd) as (t0 & r0 & E0 & St0).
+      rewrite E0, (skip_solid tk cl t0 r0 St0), <- E0.
+      rewrite (decl_at DcVar d _ f Hd (dms_follow DcVar ms w' semi _ Hms Hw' Hsemi)) by lia. eexists. reflexivity. }
+    destruct E as (x & E). rewrite E. exact B.
+  Qed.
+
+  Lemma fblock_at b rest f : wf_fbk b -> size_bk b <= f -> fblock f (flat_bk b ++ rest) = DOk (erase_bk b, rest).
+  Proof.
+    intros (Hb & Hx) Hf. pose proof (block_at b rest f Hb Hf) as B.
+    destruct Hb as (c & q & Hc & Hq & Hok & Hqw & Hw & Hl & Hwend & He). rewrite Hc in Hx. unfold size_bk in Hf.
+    destruct b as [kw sq w l wend e]. cbn [bk_kw bk_q bk_w bk_ds bk_wend bk_end] in *.
+    unfold flat_bk in *. cbn [bk_kw bk_q bk_w bk_ds bk_wend bk_end app] in *. unfold DeclParser.fblock.
+    destruct (cl kw) as [| |k0| | | | | | | | | | | |o| | |k1| | | |dk| |] eqn:Ekw; try discriminate Hc.
+    destruct dk; try discriminate Hc; injection Hc as <-; try exact B; try contradiction Hx.
+    (* VAR *)
+    destruct Hx as (Hq2 & Hds). destruct l as [lw lsemi|d ms w' semi]; [contradiction Hds|].
+    unfold erase_bk. cbn [bk_kw bk_q bk_ds]. rewrite Ekw. cbn [class_of]. rewrite Hq.
+    replace ((flat_q sq ++ w ++ flat_ds (DsSome d ms w' semi) ++ wend ++ [e]) ++ rest)
+      with (flat_q sq ++ w ++ flat_ds (DsSome d ms w' semi) ++ wend ++ e :: rest)
+      by (repeat (rewrite <- app_assoc; cbn [app]); reflexivity).
+    set (tail := w ++ flat_ds (DsSome d ms w' semi) ++ wend ++ e :: rest).
+    assert (Hrest : forall q', block_rest1 (decl_parser DcVar) q' f tail = DOk (map (set_qual q') (erase_ds DcVar (DsSome d ms w' semi)), rest))
+      by (intro q'; unfold tail; apply block_rest1_at; assumption).
+    cbn [decl_parser] in Hrest.
+    destruct sq as [|qw qt]; cbn [qual_of flat_q app] in *.
+    - injection Hq as <-. unfold DeclParser.const_qual.
+      assert (Hno : next_is (is_dk DkConstant) tail = None) by (unfold tail; apply (no_kw_at_ds DcVar); assumption).
+      rewrite Hno. apply Hrest.
+    - destruct (cl qt) as [| |k0| | | | | | | | | | | |o| | |k1| | | |dk| |] eqn:Eqt; try discriminate Hq.
+      destruct dk; try discriminate Hq; injection Hq as <-; try (destruct Hq2 as [Hq2 | Hq2]; discriminate Hq2).
+      unfold DeclParser.const_qual. rewrite <- app_assoc. cbn [app].
+      assert (Hsq : solid qt) by (unfold StExprProofs.solid; rewrite Eqt; discriminate).
+      rewrite (next_is_at tk cl _ qw qt tail Hqw Hsq) by (rewrite Eqt; reflexivity). apply Hrest.
+  Qed.
+
+  Lemma fblock_fails f rest : no_block_next rest -> fblock f (skip rest) = DFail.
+  Proof.
+    unfold no_block_next, DeclParser.fblock. destruct (skip rest) as [|t r]; [reflexivity|]. intro H.
+    destruct (cl t) as [| |k0| | | | | | | | | | | |o| | |k1| | | |dk| |]; try reflexivity. destruct dk; try reflexivity; discriminate H.
+  Qed.
+
+  Theorem fblocks_spelled l : Forall wf_fwb l -> forall acc rest f, no_block_next rest -> size_wbs l + 1 <= f ->
+    fblocks f acc (flat_wbs l ++ rest) = DOk (acc ++ flat_map erase_wb l, rest).
+  Proof.
+    induction l as [|[w b] l IH]; intros Hl acc rest f Hrest Hf.
+    - destruct f as [|f]; [lia|]. cbn [flat_wbs map concat app flat_map DeclParser.fblocks].
+      rewrite (fblock_fails f rest Hrest), app_nil_r. reflexivity.
+    - cbn [size_wbs] in Hf. destruct f as [|f]; [lia|].
+      pose proof (Forall_inv Hl) as (Hw & Hb). pose proof (Forall_inv_tail Hl) as Hl'.
+      unfold flat_wbs. cbn [map concat flat_wb flat_map erase_wb]. fold (flat_wbs l).
+      replace (((w ++ flat_bk b) ++ flat_wbs l) ++ rest) with (w ++ flat_bk b ++ flat_wbs l ++ rest)
+        by (repeat (rewrite <- app_assoc; cbn [app]); reflexivity).
+      cbn [DeclParser.fblocks]. rewrite (skip_app_triv tk cl w _ Hw), (flat_bk_skip b _ (proj1 Hb)).
+      rewrite (fblock_at b (flat_wbs l ++ rest) f Hb) by lia.
       rewrite (IH Hl' (acc ++ erase_bk b) rest f Hrest) by lia. rewrite <- app_assoc. reflexivity.
   Qed.
 
